@@ -228,7 +228,12 @@ pub fn hm_clone<K: Clone + Eq + std::hash::Hash, V: Clone>(m: &HashMap<K, V>) ->
     ensures r@ == m@
 { m.clone() }
 
-// <S: Into<String>>::into (Type::simple_type): nothing is claimed about the text
+// <S: Into<String>>::into (Type::simple_type): the text is the text of the argument, for the argument types that have a
+// text at all (ghost bound IntoView, added to the extracted signature; implemented for &str and String only)
+pub trait IntoView { spec fn iv(&self) -> Seq<char>; }
+impl IntoView for &str { open spec fn iv(&self) -> Seq<char> { (*self)@ } }
+impl IntoView for String { open spec fn iv(&self) -> Seq<char> { self@ } }
 #[verifier::external_body]
-pub fn into_string<S: Into<String>>(s: S) -> (r: String)
+pub fn into_string<S: Into<String> + IntoView>(s: S) -> (r: String)
+    ensures r@ == s.iv()
 { s.into() }
